@@ -7,6 +7,11 @@ def run():
     chk = Check("C10")
     chk.add_model("PlaceMC (monitor spec: every placement record admitted by the rule; closed over a small domain)",
                   vlib.model_check("PlaceMC", "PlaceMC.cfg", timeout=600))
+    chk.add_model("HintImpl (a hinted task keeps its worker across suspensions on a static policy; all pool layouts up to 4 workers, offset 5)",
+                  vlib.model_check("HintImpl", "HintImpl.cfg", timeout=600))
+    for v in ("records_global_index", "helper_drops_hint"):
+        rh = vlib.model_check("HintImpl", "HintImpl_%s.cfg" % v, expect_ok=False, timeout=600)
+        chk.add_model("HintImpl/variant %s (must violate)" % v, rh, note="violated: %s" % rh["violated"])
     (binary,) = vlib.build_harness(["place_harness"])
     nruns = 48 if chk.thorough() else 12
     nhist = 200 if chk.thorough() else 100
